@@ -288,6 +288,8 @@ def gen_main(rng, n, tier):
         else:
             ex, m = gen_export(rng)
             case["files"], case["meta"], case["decoys"] = [["export.json", ex]], [m], []
+        if rng.chance(0.15):
+            case["replaced"] = True
         yield case
 
 
@@ -329,6 +331,26 @@ def impl(case):
         for name in case.get("decoys", []):
             with open(os.path.join(d, name), "w") as f:
                 json.dump(decoy, f)
+        if case.get("replaced"):
+            # the export at this path REPLACES an earlier one of the same byte length that was imported before in the same
+            # process, and carries the earlier file's timestamps (restored with cp -p / rsync -t / an archive): an import
+            # reflects the file as it is now.  The earlier export = this one with the digits of its ranks changed.
+            import re
+            for name, ex in case["files"]:
+                path = os.path.join(d, name)
+                text = json.dumps(ex)
+                old_text = re.sub(r'("Rank": )(\d)', lambda m: m.group(1) + str((int(m.group(2)) + 1) % 10 or 1), text)
+                if old_text != text and len(old_text) == len(text):
+                    with open(path, "w") as f:
+                        f.write(old_text)
+                    st = os.stat(path)
+                    try:
+                        Dominion.read_cvrs(path, case["use_current"], case["enforce_rules"], inc, pool)
+                    except Exception:  # noqa
+                        pass
+                    with open(path, "w") as f:
+                        f.write(text)
+                    os.utime(path, ns=(st.st_atime_ns, st.st_mtime_ns))
         path = os.path.join(d, case["files"][0][0]) if case["op"] == "read" else d
         fn = Dominion.read_cvrs if case["op"] == "read" else Dominion.read_cvrs_directory
         call = case.get("call", "pos")
